@@ -672,4 +672,185 @@ theorem spec_only_eligible (T : Table) (h h' : HState) (hs : hstep T h = some h'
 
 
 
+/-! ## the driver's two columns: line machine of the model vs line machine of the Spec -/
+
+/-- the two line machines are in step: same table, same line tracking, same text/position/tokens -/
+def LSim (l : LState) (g : HLState) : Prop := g.T = l.T ∧ g.tr = l.tr ∧ Sim l.m g.h
+
+/-- both line machines choose the same alias at every step of a lock-step run of `f` steps -/
+def LAgree : Nat → LState → HLState → Prop
+  | 0, _, _ => True
+  | f + 1, l, g =>
+    mcand l.T l.m = hcand g.T g.h ∧ ∀ l' g', lstep l = some l' → hlstep g = some g' → LAgree f l' g'
+
+theorem tokOutC_ne_nil (hd : Pending) (st : PState) (r : List Char) : tokOutC hd st r ≠ [] := by
+  unfold tokOutC
+  simp only
+  split <;> simp
+
+/-- one lock step of the line machines -/
+theorem lsim_step {l : LState} {g : HLState} (hs : LSim l g) (hc : mcand l.T l.m = hcand g.T g.h) :
+    (lstep l = none ∧ hlstep g = none) ∨
+    ∃ l' g', lstep l = some l' ∧ hlstep g = some g' ∧ LSim l' g' := by
+  obtain ⟨hT, htr, hsim⟩ := hs
+  rw [hT] at hc
+  have hsim' := hsim
+  obtain ⟨hr, ho, hst, htk, hhd⟩ := hsim
+  have hk : skipLenC g.h.rest = skipLen l.m.rest := by rw [hr]; rfl
+  unfold mcand at hc
+  cases hdrop : l.m.rest.drop (skipLen l.m.rest) with
+  | nil =>
+    left
+    have hd : g.h.rest.drop (skipLenC g.h.rest) = [] := by rw [hk, hr, ← chars_drop, hdrop]; rfl
+    refine ⟨?_, ?_⟩
+    · unfold lstep step; simp only [hdrop]
+    · unfold hlstep hstep; simp only [hd]
+  | cons c0 tl =>
+    right
+    rw [hdrop] at hc
+    simp only at hc
+    have hd : g.h.rest.drop (skipLenC g.h.rest) = c0.c :: chars tl := by
+      rw [hk, hr, ← chars_drop, hdrop]; rfl
+    have htok : lexTokC (c0.c :: chars tl) = lexTok (c0 :: tl) := rfl
+    cases hel : eligible l.T ((markLc (l.m.rest.take (skipLen l.m.rest))).reverse ++ l.m.pre) c0
+        (lexTok (c0 :: tl)).kind (trans l.m.st (lexTok (c0 :: tl)).kind).sub with
+    | some a =>
+      rw [hel] at hc
+      have e1 := step_subst hdrop hel
+      have e2 := hstep_subst (T := l.T) hd hc.symm
+      rcases sim_step hsim' (T := l.T) (by unfold mcand; rw [hdrop]; simp only; rw [hel]; exact hc) with
+        ⟨e, _⟩ | ⟨s'', h'', e1', e2', hsim2⟩
+      · rw [e1] at e; cases e
+      · rw [e1] at e1'; rw [e2] at e2'
+        cases e1'; cases e2'
+        refine ⟨{ l with m :=
+              { pre := (markLc (l.m.rest.take (skipLen l.m.rest))).reverse ++ l.m.pre,
+                rest := spliceChars a c0 ++ tl.drop ((lexTok (c0 :: tl)).len - 1),
+                st := (trans l.m.st (lexTok (c0 :: tl)).kind).onSub, subs := l.m.subs + 1, toks := l.m.toks,
+                hd := l.m.hd } },
+          { g with h :=
+              { out := (g.h.rest.take (skipLenC g.h.rest)).reverse ++ g.h.out,
+                rest := a.value ++ (chars tl).drop ((lexTokC (c0.c :: chars tl)).len - 1),
+                active := { name := a.name,
+                            endRem := ((chars tl).drop ((lexTokC (c0.c :: chars tl)).len - 1)).length,
+                            eb := endsBlank a.value } ::
+                  (activeAt g.h.active ((chars tl).length + 1)).map
+                    (clamp ((chars tl).drop ((lexTokC (c0.c :: chars tl)).len - 1)).length),
+                st := (trans g.h.st (lexTokC (c0.c :: chars tl)).kind).onSub, toks := g.h.toks, hd := g.h.hd,
+                tb := flagRun g.h.active true (skipLenC g.h.rest) g.h.tb g.h.rest } }, ?_, ?_, hT, htr, hsim2⟩
+        · unfold lstep; rw [e1]; simp
+        · unfold hlstep; rw [hT, e2]; simp
+    | none =>
+      rw [hel] at hc
+      have e1 := step_take hdrop hel
+      have e2 := hstep_take (T := l.T) hd hc.symm
+      rcases sim_step hsim' (T := l.T) (by unfold mcand; rw [hdrop]; simp only; rw [hel]; exact hc) with
+        ⟨e, _⟩ | ⟨s'', h'', e1', e2', hsim2⟩
+      · rw [e1] at e; cases e
+      · rw [e1] at e1'; rw [e2] at e2'
+        cases e1'; cases e2'
+        have hraw : chars ((c0 :: tl).take (lexTok (c0 :: tl)).len) = (c0.c :: chars tl).take (lexTokC (c0.c :: chars tl)).len := by
+          rw [chars_take]; rfl
+        rcases htt : trackTok l.m.st (lexTok (c0 :: tl)).kind (trans l.m.st (lexTok (c0 :: tl)).kind).sub
+            (chars ((c0 :: tl).take (lexTok (c0 :: tl)).len)) l.tr with ⟨tr', cmds⟩
+        have hsp : spanLenC g.h.hd g.h.st (c0.c :: chars tl) = spanLen l.m c0 tl := by
+          unfold spanLen; rw [hhd, hst]; rfl
+        refine ⟨{ T := cmds.foldl applyCmd l.T,
+                  m := { pre := (tl.take (spanLen l.m c0 tl)).reverse ++ c0 ::
+                           ((markLc (l.m.rest.take (skipLen l.m.rest))).reverse ++ l.m.pre),
+                         rest := tl.drop (spanLen l.m c0 tl),
+                         st := (trans l.m.st (lexTok (c0 :: tl)).kind).onTake, subs := l.m.subs,
+                         toks := tokOutC l.m.hd l.m.st (chars (c0 :: tl)) ++ l.m.toks,
+                         hd := hdNextC l.m.hd l.m.st (chars (c0 :: tl)) },
+                  tr := tr' },
+          { T := cmds.foldl applyCmd l.T,
+            h := { out := ((chars tl).take (spanLenC g.h.hd g.h.st (c0.c :: chars tl))).reverse ++ c0.c ::
+                     ((g.h.rest.take (skipLenC g.h.rest)).reverse ++ g.h.out),
+                   rest := (chars tl).drop (spanLenC g.h.hd g.h.st (c0.c :: chars tl)),
+                   active := activeAt g.h.active ((chars tl).drop (spanLenC g.h.hd g.h.st (c0.c :: chars tl))).length,
+                   st := (trans g.h.st (lexTokC (c0.c :: chars tl)).kind).onTake,
+                   toks := tokOutC g.h.hd g.h.st (c0.c :: chars tl) ++ g.h.toks,
+                   hd := hdNextC g.h.hd g.h.st (c0.c :: chars tl),
+                   tb := flagRun g.h.active false (spanLenC g.h.hd g.h.st (c0.c :: chars tl) + 1)
+                     (flagRun g.h.active true (skipLenC g.h.rest) g.h.tb g.h.rest) (c0.c :: chars tl) },
+            tr := tr' }, ?_, ?_, rfl, rfl, hsim2⟩
+        · unfold lstep; rw [e1]
+          simp only [bne_self_eq_false, Bool.false_eq_true, ↓reduceIte, hdrop, htt]
+        · unfold hlstep; rw [hT, e2]
+          have hlen : ¬ ((tokOutC g.h.hd g.h.st (c0.c :: chars tl) ++ g.h.toks).length = g.h.toks.length) := by
+            have := tokOutC_ne_nil g.h.hd g.h.st (c0.c :: chars tl)
+            have h2 : 0 < (tokOutC g.h.hd g.h.st (c0.c :: chars tl)).length := List.length_pos_iff.mpr this
+            simp only [List.length_append]; omega
+          simp only [beq_iff_eq, hlen, ↓reduceIte, hd]
+          have htt' : trackTok g.h.st (lexTokC (c0.c :: chars tl)).kind (trans g.h.st (lexTokC (c0.c :: chars tl)).kind).sub
+              ((c0.c :: chars tl).take (lexTokC (c0.c :: chars tl)).len) g.tr = (tr', cmds) := by
+            rw [hst, htr, ← hraw]; exact htt
+          simp only [htt']
+
+
+theorem lsim_run (f : Nat) {l : LState} {g : HLState} (hs : LSim l g) (ha : LAgree f l g) :
+    LSim (lrun f l).1 (hlrun f g) := by
+  induction f generalizing l g with
+  | zero => simpa [lrun, hlrun] using hs
+  | succ f ih =>
+    obtain ⟨hc, hnext⟩ := ha
+    rcases lsim_step hs hc with ⟨h1, h2⟩ | ⟨l', g', h1, h2, h3⟩
+    · unfold lrun hlrun; simp only [h1, h2]; exact hs
+    · unfold lrun hlrun; simp only [h1, h2]
+      exact ih h3 (hnext l' g' h1 h2)
+
+/-- ☆ (partial) The driver's two columns: if the line machine of the model and the line machine of the Spec
+    (alias table updated by `alias`/`unalias` after every command line) choose the same alias at every step,
+    they end with the same text, the same tokens, the same pending here-documents and the same final table —
+    i.e. the model observation and the Spec observation printed by the driver are the same string.
+    MISSING for the unconditional statement: `LAgree` always holds.  The recursion guards agree for any sequence
+    of tables (`Corr` does not mention the table); the proof of the blank rule (`BlankInv`) uses `ebOf T`, the
+    table entry of a name on a chain, which a redefinition invalidates — it has to be restated with the `eb`
+    recorded when the value was spliced. -/
+theorem line_model_eq_spec_partial (T : Table) (line : List Char) (f : Nat)
+    (hA : LAgree f { T := T, m := init line } { T := T, h := { rest := line } }) :
+    let l := (lrun f { T := T, m := init line }).1
+    let g := hlrun f { T := T, h := { rest := line } }
+    l.m.text = g.h.out.reverse ++ g.h.rest ∧ l.m.toks = g.h.toks ∧ l.m.hd = g.h.hd ∧
+      l.finalTable = g.finalTable := by
+  intro l g
+  have hs : LSim { T := T, m := init line } ({ T := T, h := { rest := line } } : HLState) :=
+    ⟨rfl, rfl, sim_init line⟩
+  obtain ⟨hT, htr, hr, ho, hst, htk, hhd⟩ := lsim_run f hs hA
+  refine ⟨?_, htk.symm, hhd.symm, ?_⟩
+  · show (l.m.pre.reverse ++ l.m.rest).map (·.c) = g.h.out.reverse ++ g.h.rest
+    rw [hr, ho]; simp [chars]; rfl
+  · unfold LState.finalTable HLState.finalTable
+    rw [hT, htr, hst]
+
+/-- executable lock-step check of `LAgree` (a kernel-checkable certificate for one table and script) -/
+def lagreeB : Nat → LState → HLState → Bool
+  | 0, _, _ => true
+  | f + 1, l, g =>
+    decide (mcand l.T l.m = hcand g.T g.h) &&
+      match lstep l, hlstep g with
+      | some l', some g' => lagreeB f l' g'
+      | _, _ => true
+
+theorem lagree_of_lagreeB (f : Nat) {l : LState} {g : HLState} (hb : lagreeB f l g = true) : LAgree f l g := by
+  induction f generalizing l g with
+  | zero => trivial
+  | succ f ih =>
+    unfold lagreeB at hb
+    simp only [Bool.and_eq_true, decide_eq_true_eq] at hb
+    refine ⟨hb.1, ?_⟩
+    intro l' g' h1 h2
+    have := hb.2
+    simp only [h1, h2] at this
+    exact ih this
+
+/-- non-vacuity: the redefinition script of the seeded change (the alias redefines itself on the first line of
+    its own replacement, the `a` on the second line is left alone): model and Spec agree at every step. -/
+example : lagreeB 200
+    ({ T := [⟨"a", "alias a=REDEF\na second ".toList, false⟩, ⟨"b", "x".toList, false⟩],
+       m := init "a b\na".toList } : LState)
+    ({ T := [⟨"a", "alias a=REDEF\na second ".toList, false⟩, ⟨"b", "x".toList, false⟩],
+       h := ({ rest := "a b\na".toList } : HState) } : HLState) = true := by decide +kernel
+
+
 end YashModel.Alias
